@@ -456,7 +456,7 @@ SlicePos(ps, off, len) ==
 \*  LenAssocOne          ${#x[@]} of an associative array is 1
 \*  IndirectSubscript    ${!x} with x='w[1]' (a subscripted name) expands to nothing
 \*  IndirectBadName      ${!x} with x holding something that is not a name (bash: "invalid variable name") expands to nothing
-\*  PatQuotesIgnored     ${x#'*'} ${x%"?"}: quotes around pattern characters of # ## % %% are dropped, the character
+\*  PatQuotesIgnored     ${x#'*'} ${x%"?"} ${x#\*}: quotes and (since /repo 4d8af5c) backslashes around pattern characters of # ## % %% are dropped, the character
 \*                       acts as a wildcard (param.go expands the argument with Literal, not Pattern)
 \*  NamesAtEmptyField    "${!p@}" with no matching name gives one empty field instead of none
 AllDevs == {"ListOpJoined", "AssignAt0", "ListTestIgnored", "ListAtIgnored", "WordQuotesIgnored", "NegLenClamped",
@@ -478,8 +478,8 @@ DevsOf(f) ==
 
 \* a quoted * or ? taken as the wildcard
 UnquotePat(p) == [i \in 1..Len(p) |->
-                   IF p[i].k = "lit" /\ p[i].c = "*" /\ p[i].src[1] \in {"'", "\""} THEN PStar
-                   ELSE IF p[i].k = "lit" /\ p[i].c = "?" /\ p[i].src[1] \in {"'", "\""} THEN PAny
+                   IF p[i].k = "lit" /\ p[i].c = "*" /\ p[i].src[1] \in {"'", "\"", "\\"} THEN PStar
+                   ELSE IF p[i].k = "lit" /\ p[i].c = "?" /\ p[i].src[1] \in {"'", "\"", "\\"} THEN PAny
                    ELSE p[i]]
 QUnsafe == {";", "\"", "'", "(", ")", "$", "|", "&", ">", "<", "`", " ", "TAB", "CR", "NL", "\\", "#", "{", "~", "*", "?", "[", "="}
 SafeQ(t) == t # <<>> /\ \A i \in 1..Len(t) : t[i] \notin QUnsafe
